@@ -5,6 +5,7 @@
    of deaths and -- outside a call -- submissions. *)
 From Coq Require Import List Arith Bool.
 From LokyV Require Import Lib.ResizeLib Gen.Resize Model.Resize Proofs.ResizeThm.
+From LokyV Require Model.SentinelPost Proofs.SentinelPostThm.
 Import ListNotations.
 
 (* every history from a healthy started pool: sentinels are never posted while a future is unresolved (submitted work keeps its
@@ -52,3 +53,28 @@ Example C10_example :
                (pool 4 1) in
   pc s = Some [] /\ al s = 2 /\ left s = 2 /\ spawned s = 0 /\ bad s = false /\ faults s = 0.
 Proof. exact shrink_example. Qed.
+
+(* ---- the posting of the sentinels with the capacity of the call queue (Model/SentinelPost.v; known finding H16) ----
+   _resize() posts with a blocking put while it holds the management lock and counts the workers that have announced their idle exit
+   as alive.  REFUTED as stated ("terminates in every case, also when workers time out"): whenever more workers are leaving than the
+   queue has slots plus the target, the resizing thread wedges -- the put blocks, the manager cannot reap (lock), nobody reads.
+   PARTIAL: when the sentinels to post fit into the free slots plus the workers still reading -- in particular when no worker is
+   leaving as the resize looks -- the posting never wedges: whenever something is left to post, a put or a worker's get is enabled. *)
+Theorem C10_posting_refuted_when_idle_workers_are_leaving :
+  forall cap lv target, cap < lv - target ->
+    SentinelPost.wedged (SentinelPost.run (repeat SentinelPost.Post cap) (SentinelPost.begin cap 0 lv target)).
+Proof. exact SentinelPostThm.posting_can_wedge. Qed.
+Print Assumptions C10_posting_refuted_when_idle_workers_are_leaving.
+
+Theorem C10_posting_partial :
+  forall cap rd lv target es, 0 < cap -> (rd + lv) - target <= cap + rd ->
+    let s := SentinelPost.run es (SentinelPost.begin cap rd lv target) in
+    ~ SentinelPost.wedged s /\
+    (SentinelPost.to_post s > 0 -> SentinelPost.step s SentinelPost.Post <> s \/ SentinelPost.step s SentinelPost.Take <> s).
+Proof. exact SentinelPostThm.posting_partial. Qed.
+Print Assumptions C10_posting_partial.
+
+Example C10_h16_instances :
+  SentinelPost.wedged (SentinelPost.run (repeat SentinelPost.Post 5) (SentinelPost.begin 5 0 8 1)) /\
+  SentinelPost.wedged (SentinelPost.run (repeat SentinelPost.Post 3) (SentinelPost.begin 3 0 6 1)).
+Proof. exact SentinelPostThm.h16_instances. Qed.
